@@ -147,6 +147,44 @@ def _intra_episode(rng, w, layers):
     return {"driver": "layers", "world": w.json(), "render": "ident", "items": items}
 
 
+def _twin_episode(rng):
+    """Two architectures in one session whose module trees differ: the second has one more package whose name matches
+    the PATTERN of a regex-defined layer (r.svc next to the new r.svc_two, pattern 'r\\.svc.*').  A layer defined by a
+    pattern is resolved against the architecture a rule is applied to - not against whichever one came first."""
+    import re as _re
+    w1 = random_world(rng, n_modules=rng.randint(8, 18), n_imports=rng.randint(4, 30))
+    tops = tops_of(w1)
+    if len(tops) < 3:
+        return None
+    rng.shuffle(tops)
+    p = tops[0]
+    stem = p[-1]
+    family = [t for t in tops if t[-1].startswith(stem)]          # everything the pattern matches belongs to its layer
+    others = [t for t in tops if not t[-1].startswith(stem)]
+    if len(others) < 2:
+        return None
+    new = tuple(p[:-1]) + (stem + "_two",)
+    if new in set(w1.modules):
+        return None
+    importers = [m for m in w1.modules if any(anc(o, m) for o in others)]
+    e = (rng.choice(importers), new) if rng.random() < 0.7 else (new, rng.choice(importers))
+    w2 = World(list(w1.modules) + [new, new + ("inner",)], list(w1.imports) + [e])
+    pat = _re.escape(".".join(p)) + ".*"
+    layers = [{"name": "X", "kind": "regex", "listed": [list(t) for t in family], "pat": pat},
+              {"name": "Y", "kind": "names", "listed": [list(others[0])]},
+              {"name": "Z", "kind": "names", "listed": [list(o) for o in others[1:3]]}]
+    items = [{"op": "world", "a": 1, "world": w2.json()}]
+    names = [l["name"] for l in layers]
+    # (the pattern also matches the sub modules of what it matches: a redundant listing, for which the two 'any layer'
+    # shapes have no documented meaning - see without_any_on_redundant and DESIGN section 14, O3)
+    rules = rng.sample([r for r in rules_for(names) if not r["any"]], 14)
+    order = [0, 1] if rng.random() < 0.7 else [1, 0]
+    for k, r in enumerate(rules):
+        for a in order:
+            items.append({"op": "leval", "a": a, "rid": f"T{k}", "layers": layers, "rule": r})
+    return {"driver": "layers", "world": w1.json(), "render": "ident", "items": items}
+
+
 def tops_of(world):
     """Pairwise unrelated modules of a world: its depth-2 packages (children of the root)."""
     return [m for m in world.modules if len(m) == 2]
@@ -188,6 +226,13 @@ def specs_for(ctx):
             if ie:
                 specs.append(ie)
     meta["random_worlds"] = n_worlds
+    n_twin = 0
+    while n_twin < (40 if ctx.quick else 800):
+        te = _twin_episode(rng)
+        if te:
+            specs.append(te)
+            n_twin += 1
+    meta["sessions_with_two_module_trees_and_a_pattern_layer"] = n_twin
     return specs, meta
 
 
